@@ -146,6 +146,8 @@ class Interp:
                 return z3.Or(*alts)
             if v.sort().name() in self.zs.enum_by_sort:
                 return True
+            if isinstance(v.sort(), z3.ArraySortRef) and v.sort().range() == z3.BoolSort():
+                return z3.Not(v == z3.K(v.sort().domain(), False))          # a set is true iff it is not empty
             raise Unsupported(f'truth of sort {v.sort()}')
         if isinstance(v, VOpt):
             t = self.truth(v.val)
@@ -496,7 +498,7 @@ class Interp:
         if id(v) in memo:
             return memo[id(v)]
         if isinstance(v, VStruct):
-            n = VStruct(v.sort, v.pycls, {}, v.tag)
+            n = VStruct(v.sort, v.pycls, {}, v.tag, v.oid)
             memo[id(v)] = n
             n.f = {k: self.snapshot(x, memo) for k, x in v.f.items()}
             return n
